@@ -158,6 +158,54 @@ class Fn:
     def exits(self):
         return [i for i, b in enumerate(self.blocks) if b["t"]["k"] == "return"]
 
+    def loops(self):
+        """natural loops: list of (header, frozenset(blocks)) from back edges u->h where h dominates u"""
+        out = {}
+        for u, ss in enumerate(self.succ):
+            if self.blocks[u].get("cleanup"):
+                continue
+            for h in ss:
+                if self.dominates(h, u):
+                    body = {h, u}
+                    st = [u]
+                    while st:
+                        x = st.pop()
+                        if x == h:
+                            continue
+                        for p in self.pred[x]:
+                            if p not in body:
+                                body.add(p)
+                                st.append(p)
+                    out.setdefault(h, set()).update(body)
+        return [(h, frozenset(b)) for h, b in sorted(out.items())]
+
+    def innermost_loops(self):
+        ls = self.loops()
+        heads = {h for h, _ in ls}
+        return [(h, b) for h, b in ls if not ((heads - {h}) & b)]
+
+    def calls_in(self, blocks):
+        for i in sorted(blocks):
+            t = self.blocks[i]["t"]
+            if t["k"] == "call" and not self.blocks[i].get("cleanup"):
+                yield Call(self, i, t)
+
+    def postdominated_by_any(self, start, targets):
+        """every path from block `start` to a return passes through one of `targets` (blocks)"""
+        targets = set(targets)
+        seen = set()
+        st = [start]
+        while st:
+            x = st.pop()
+            if x in seen or x in targets:
+                continue
+            seen.add(x)
+            t = self.blocks[x]["t"]
+            if t["k"] == "return":
+                return False
+            st.extend(self.succ[x])
+        return True
+
     # ---- calls -----------------------------------------------------------------------------
     def calls(self):
         for i, b in enumerate(self.blocks):
